@@ -26,7 +26,10 @@ Median(s) == Percentile(s, Frac(1, 2))
 \* name \in AggNames, or "quantile" with level q; s non-empty
 Agg(name, q, s) ==
   IF name = "count" THEN Q(R(Cardinality({i \in DOMAIN s : ~IsNaN(s[i])})))
-  ELSE IF s = <<>> \/ HasNaN(s) THEN NaNE
+  ELSE IF s = <<>> THEN NaNE
+  ELSE IF name = "change" THEN Q(Sub(s[Len(s)], s[1]))                 \* last minus first: only the two ends matter
+  ELSE IF name = "abschange" THEN Q(LET d == Sub(s[Len(s)], s[1]) IN IF IsNaN(d) THEN NaN ELSE AbsR(d))
+  ELSE IF HasNaN(s) THEN NaNE
   ELSE CASE name = "mean"      -> Q(MeanSeq(s))
          [] name = "median"    -> Q(Median(s))
          [] name = "min"       -> Q(MinSeq(s))
@@ -38,8 +41,6 @@ Agg(name, q, s) ==
          [] name = "sum"       -> Q(SumSeq(s))
          [] name = "meanabs"   -> Q(MeanSeq([i \in DOMAIN s |-> AbsR(s[i])]))
          [] name = "absmean"   -> Q(AbsR(MeanSeq(s)))
-         [] name = "change"    -> Q(Sub(s[Len(s)], s[1]))
-         [] name = "abschange" -> Q(AbsR(Sub(s[Len(s)], s[1])))
          [] name = "quantile"  -> Q(Percentile(s, q))
 \* rational-valued aggregates (everything but std), for use inside other formulas
 AggR(name, q, s) == LET e == Agg(name, q, s) IN IF IsQ(e) THEN e.v ELSE NaN
@@ -58,13 +59,31 @@ OrderLemmas(s) ==
      /\ AggR("abschange", Zero, s) = AbsR(AggR("change", Zero, s))
 
 ---------------------------------------------------------------------------
-(* -T: trailing windows on the input's own grid.  Window(grid, k, h) are the positions j <= k with
-   grid[j] in (grid[k] - h, grid[k]] *)
-Window(grid, k, h) == {j \in 1..k : Gt(grid[j], Sub(grid[k], h))}
-WindowSeq(grid, k, h) == SortInts(Window(grid, k, h))
-PreAgg(series, grid, h, name, q) == [k \in DOMAIN series |-> Agg(name, q, [m \in DOMAIN WindowSeq(grid, k, h) |-> series[WindowSeq(grid, k, h)[m]]])]
+(* -T h: every value at grid point g (a lead time, or an initialisation time with -Tx time) is replaced by the       *)
+(* aggregate of the same series over the trailing window (g - h, g], taken in increasing order of the grid           *)
+(* value -- whatever order the file lists its grid in (C02).                                                          *)
+Window(grid, k, h) == {j \in DOMAIN grid : Gt(grid[j], Sub(grid[k], h)) /\ Le(grid[j], grid[k])}
+\* window positions ordered by grid value (ties cannot occur: a file's grid has distinct entries)
+RECURSIVE OrderByGrid(_, _)
+OrderByGrid(grid, S) == IF S = {} THEN <<>>
+                        ELSE LET m == CHOOSE j \in S : \A i \in S : Le(grid[j], grid[i]) IN <<m>> \o OrderByGrid(grid, S \ {m})
+WindowSeq(grid, k, h) == OrderByGrid(grid, Window(grid, k, h))
+PreAgg(series, grid, h, name, q) ==
+  [k \in DOMAIN series |-> LET w == WindowSeq(grid, k, h) IN Agg(name, q, [m \in DOMAIN w |-> series[w[m]]])]
+IncreasingGrid(grid) == \A k \in 1..(Len(grid) - 1) : Lt(grid[k], grid[k + 1])
 WindowLemmas(grid, h) ==
   \A k \in DOMAIN grid :
-     /\ k \in Window(grid, k, h) \/ ~Gt(h, Zero)
-     /\ \A j \in Window(grid, k, h) : \A m \in j..k : m \in Window(grid, k, h)       \* contiguous suffix of the prefix (increasing grid)
+     /\ (Gt(h, Zero) => k \in Window(grid, k, h))                                    \* a point is in its own window
+     /\ (IncreasingGrid(grid) => \A j \in Window(grid, k, h) : j <= k /\ \A m \in j..k : m \in Window(grid, k, h))   \* contiguous, trailing
+     /\ (IncreasingGrid(grid) /\ Gt(h, Sub(grid[k], grid[1])) => Window(grid, k, h) = 1..k)                  \* long window = whole prefix
+
+\* aggregation of an array along one of its dimensions (shape <<n1, n2>> or <<n1, n2, n3>>, row-major flat values)
+FlatIdx3(shape, i, j, k) == ((i - 1) * shape[2] + (j - 1)) * shape[3] + k
+Along3(shape, flat, ax, name, q) ==
+  LET line(a, b) == IF ax = 1 THEN [m \in 1..shape[1] |-> flat[FlatIdx3(shape, m, a, b)]]
+                    ELSE IF ax = 2 THEN [m \in 1..shape[2] |-> flat[FlatIdx3(shape, a, m, b)]]
+                    ELSE [m \in 1..shape[3] |-> flat[FlatIdx3(shape, a, b, m)]]
+      d1 == IF ax = 1 THEN shape[2] ELSE shape[1]
+      d2 == IF ax = 3 THEN shape[2] ELSE shape[3]
+  IN  [m \in 1..(d1 * d2) |-> Agg(name, q, line(((m - 1) \div d2) + 1, ((m - 1) % d2) + 1))]
 =============================================================================
